@@ -65,6 +65,18 @@ template <class FM, class FS, class K, class M> void flat_target(Src &s, Case &c
             if (it != fm.end())
                 VP_CHECK(it->first == k && it->second == rm.at(k), "map_find_value", "%s: find(%s) points at the wrong entry", op,
                          Keys<K>::show(k).c_str());
+            {
+                // const overloads of the lookups are functions of their own
+                const auto &cfm = fm;
+                auto cit = cfm.find(k);
+                VP_CHECK((cit != cfm.end()) == (rm.find(k) != rm.end()), "map_const_find", "%s: const find(%s) %s, std::map differs", op, Keys<K>::show(k).c_str(),
+                         cit != cfm.end() ? "hit" : "miss");
+                if (cit != cfm.end())
+                    VP_CHECK(cit->first == k && cit->second == rm.at(k), "map_const_find_value", "%s: const find(%s) points at the wrong entry", op,
+                             Keys<K>::show(k).c_str());
+                VP_CHECK(cfm.count(k) == rm.count(k) && cfm.size() == rm.size() && cfm.empty() == rm.empty(), "map_const_count", "%s: const count/size/empty differ from std::map",
+                         op);
+            }
             if (i != at_a && i != at_b)
                 continue;
             bool threw = false;
